@@ -85,9 +85,9 @@ type Layout struct {
 
 // Vendors, classes and device names come from small pools so that files collide.
 var (
-	Vendors  = []string{"v1.com", "v2.org", "v"}
-	Classes  = []string{"gpu", "net.x"}
-	DevNames = []string{"d0", "d1", "2d"}
+	Vendors          = []string{"v1.com", "v2.org", "v"}
+	Classes          = []string{"gpu", "net.x"}
+	DevNames         = []string{"d0", "d1", "2d"}
 	specFileNames    = []string{"a.json", "b.yaml", "c.json", "d.yaml", ".h.json", "e.x.yaml"}
 	nonSpecFileNames = []string{"x.txt", "x.yml", "x.json.bak", "x", "spec.123.tmp", "y.JSON", "z.yaml~"}
 )
@@ -174,11 +174,11 @@ func (l *Layout) NewInvalidFile(t *rapid.T, label, dir, name string) *File {
 		f.Data = []byte(rapid.SampledFrom([]string{"{bad", "cdiVersion: [", "\t- x: y\n  z", "{\"cdiVersion\":\"0.6.0\",", "%YAML 9.9\n---\n@"}).Draw(t, label+"syntax"))
 	case BadSemantic:
 		docs := []string{
-			`{"kind":"%s/gpu","devices":[{"name":"%s","containerEdits":{"env":["M=invalid"]}}]}`,                                         // no version
-			`{"cdiVersion":"0.6.0","kind":"%s/gpu","devices":[{"name":"%s","containerEdits":{"env":["NOASSIGNMENT"]}}]}`,                  // bad env
-			`{"cdiVersion":"0.6.0","kind":"%s/gpu","devices":[{"name":"%s","containerEdits":{}}]}`,                                        // empty edits
-			`{"cdiVersion":"0.6.0","kind":"%s/gpu","devices":[{"name":"%s","containerEdits":{"env":["M=invalid"]},"unknownField":1}]}`,    // unknown field
-			`{"cdiVersion":"0.3.0","kind":"%s/net.x","devices":[{"name":"%s","containerEdits":{"env":["M=invalid"]}}]}`,                   // version too low for dotted class
+			`{"kind":"%s/gpu","devices":[{"name":"%s","containerEdits":{"env":["M=invalid"]}}]}`,                                                                                                                                 // no version
+			`{"cdiVersion":"0.6.0","kind":"%s/gpu","devices":[{"name":"%s","containerEdits":{"env":["NOASSIGNMENT"]}}]}`,                                                                                                         // bad env
+			`{"cdiVersion":"0.6.0","kind":"%s/gpu","devices":[{"name":"%s","containerEdits":{}}]}`,                                                                                                                               // empty edits
+			`{"cdiVersion":"0.6.0","kind":"%s/gpu","devices":[{"name":"%s","containerEdits":{"env":["M=invalid"]},"unknownField":1}]}`,                                                                                           // unknown field
+			`{"cdiVersion":"0.3.0","kind":"%s/net.x","devices":[{"name":"%s","containerEdits":{"env":["M=invalid"]}}]}`,                                                                                                          // version too low for dotted class
 			`{"cdiVersion":"0.6.0","kind":"%s/gpu","devices":[{"name":"%s","containerEdits":{"env":["M=invalid"]}},{"name":"d0","containerEdits":{"env":["M=invalid"]}},{"name":"d0","containerEdits":{"env":["M=invalid2"]}}]}`, // duplicate device
 		}
 		f.Data = []byte(fmt.Sprintf(rapid.SampledFrom(docs).Draw(t, label+"semantic"), vendor, dev))
